@@ -96,6 +96,8 @@ Inductive effect :=
   | EPerKeyStep (pk : nat)           (* the map_cyclic closure of a per-key operator (incremental-map) *)
   | EMakeStale (e : nat)
   | EInvalidateExpert (e : nat)
+  | ESubscribe (o : oid) (hid : Z)        (* observer.subscribe(<handler that only logs>) from inside a closure *)
+  | EUnsubscribe (o : oid) (tok : Z)      (* observer.unsubscribe(token number tok of that observer) *)
   | EStabilise                        (* nested stabilise: misuse *)
   | EPanic.                           (* panic unconditionally *)
 
@@ -351,6 +353,7 @@ Record state := State {
   dep_slots : list (option nat);  (* the program's cells holding a Dependency (an edge) *)
   perkeys : list perkey;
   cur_running : option nid;       (* only_in_debug.currently_running_node *)
+  running_obs : option oid;       (* the observer whose handler table run_all has borrowed *)
   inv_count : nat;                (* user-function invocations so far *)
   crash_at : option nat;          (* inject a panic at this invocation *)
 }.
@@ -359,7 +362,7 @@ Global Instance eta_state : Settable _ := settable! State
    ahh_max_seen; st_status; stab_num; prop_inv; has_stack; run_ouh; new_obs; all_obs;
    disallowed_obs; cur_scope; set_during; dead_vars; num_var_sets; num_recomputed; num_created;
    num_changed; num_became_necessary; num_became_unnecessary; num_invalidated;
-   num_active_observers; debug; events; handles; exports; memos; experts; edges; dep_slots; perkeys; cur_running;
+   num_active_observers; debug; events; handles; exports; memos; experts; edges; dep_slots; perkeys; cur_running; running_obs;
    inv_count; crash_at>.
 
 (* ---------------------------------------------------------------- monad *)
